@@ -313,7 +313,7 @@ Proof.
   unfold build_table_body in H. apply bindM_inv in H as [[e [_ H]]|[u [h1 [_ H]]]]; [discriminate H|].
   apply bindM_inv in H as [[e [_ H]]|[u2 [h2 [_ H]]]]; [discriminate H|]. inversion H. reflexivity.
 Qed.
-Lemma post_build_table_addable d bp : post (build_table d bp) addable.
+Lemma post_build_table_tbl d bp : post (build_table d bp) is_tbl.
 Proof.
   intros h h' x H. destruct bp as [| | | | | | |tag dd]; try (cbn in H; discriminate H).
   assert (T7 : tag = 7%N \/ build_table d (PVBlue tag dd) h = (h, Raise (EStuck 411))).
@@ -323,8 +323,10 @@ Proof.
   rewrite build_table_eq in H. apply bindM_inv in H as [[e [_ H]]|[nt [h1 [_ H]]]]; [discriminate H|].
   apply bindM_inv in H as [[e [_ H]]|[t [h2 [H2 H]]]]; [discriminate H|].
   pose proof (new_table_empty_post _ _ _ _ _ _ _ _ _ _ _ H2) as Ht.
-  destruct (post_build_table_body _ _ _ _ _ _ _ Ht H) as [-> Ht']. apply addable_tbl. exact Ht'.
+  destruct (post_build_table_body _ _ _ _ _ _ _ Ht H) as [-> Ht']. exact Ht'.
 Qed.
+Lemma post_build_table_addable d bp : post (build_table d bp) addable.
+Proof. intros h h' x H. apply addable_tbl. eapply post_build_table_tbl; exact H. Qed.
 
 Lemma rz_col_step d t cb : rz (do! c <- build_column d cb ;; table_add_column t c).
 Proof.
